@@ -284,6 +284,11 @@ impl World {
         v::arm_snapshots(true);
         v::clear_snapshots();
         v::set_nonce_random_override(if cfg.force_nonce { Some([0x42; 8]) } else { None });
+        // one constant for everything is the strongest adversary; where a node has first messages to
+        // several peers in flight at once (three plain nodes) the constant is mixed with the session
+        // key, because equal nonces across sessions break the handler's nonce -> address map (which
+        // the property does not forbid and real randomness excludes)
+        v::set_nonce_override_per_key(cfg.nodes >= 3 && cfg.session_capacity.is_none());
         let mut nodes = vec![];
         for i in 0..cfg.nodes {
             nodes.push(World::spawn_handler(cfg, i, 0).await);
